@@ -6613,13 +6613,34 @@ int TSK_WARN_UNUSED
 tsk_tree_clear(tsk_tree_t *self)
 {
     int ret = 0;
-    tsk_size_t j;
-    tsk_id_t u;
+    tsk_size_t j, n;
+    tsk_id_t u, v;
     const tsk_size_t N = self->num_nodes + 1;
     const tsk_size_t num_samples = self->tree_sequence->num_samples;
     const bool sample_counts = !(self->options & TSK_NO_SAMPLE_COUNTS);
     const bool sample_lists = !!(self->options & TSK_SAMPLE_LISTS);
     const tsk_flags_t *flags = self->tree_sequence->tables->nodes.flags;
+
+    if (sample_counts) {
+        /* The tracked count of a sample node includes the tracked samples below
+         * it in the current tree. Reduce it to the node's own contribution (1 if
+         * it is tracked, 0 otherwise) while the topology is still available.
+         * num_samples is used as scratch space since it is reset below. */
+        for (j = 0; j < num_samples; j++) {
+            u = self->samples[j];
+            n = self->num_tracked_samples[u];
+            if (n > 0) {
+                for (v = self->left_child[u]; v != TSK_NULL; v = self->right_sib[v]) {
+                    n -= self->num_tracked_samples[v];
+                }
+            }
+            self->num_samples[u] = n;
+        }
+        for (j = 0; j < num_samples; j++) {
+            u = self->samples[j];
+            self->num_tracked_samples[u] = self->num_samples[u];
+        }
+    }
 
     self->interval.left = 0;
     self->interval.right = 0;
